@@ -147,4 +147,48 @@ func init() {
 	addMutant(Mutant{Name: "equiv-zero-instead-of-new-elem", Prop: "C12", File: "compiler.go", Equivalent: true,
 		Old: "			var ar reflect.Value\n			if v != nil {\n				ar = reflect.ValueOf(v)\n			} else {\n				ar = reflect.New(expectedT).Elem()\n			}\n\n			actualT := ar.Type()\n			if !actualT.AssignableTo(expectedT) {\n				return nil, fmt.Errorf(\"%+v (%T) is an invalid argument for %s at pos %d: expected (%s)\", v, v, node.Function.String(), pos, expectedT)\n			}\n\n			args = append(args, ar)\n		}\n	}\n\n	res := rv.Call(args)",
 		New: "			var ar reflect.Value\n			if v != nil {\n				ar = reflect.ValueOf(v)\n			} else {\n				ar = reflect.Zero(expectedT)\n			}\n\n			actualT := ar.Type()\n			if !actualT.AssignableTo(expectedT) {\n				return nil, fmt.Errorf(\"%+v (%T) is an invalid argument for %s at pos %d: expected (%s)\", v, v, node.Function.String(), pos, expectedT)\n			}\n\n			args = append(args, ar)\n		}\n	}\n\n	res := rv.Call(args)"})
+	// ---- C01 / C02 ----
+	addMutant(Mutant{Name: "string-arm-verbatim", Prop: "C01", File: "compiler.go",
+		Old: "		bb.Write(unsafeGetBytes(template.HTMLEscaper(t)))", New: "		bb.Write(unsafeGetBytes(fmt.Sprint(t)))", Expect: "R2"})
+	addMutant(Mutant{Name: "html-arm-after-stringer", Prop: "C01", File: "compiler.go",
+		Old: "	case template.HTML:\n		bb.Write(unsafeGetBytes(string(t)))\n	case HTMLer:", New: "	case HTMLer:",
+		Edits: []Edit{{"compiler.go", "	case fmt.Stringer:\n		bb.Write(unsafeGetBytes(t.String()))\n", "	case fmt.Stringer:\n		bb.Write(unsafeGetBytes(t.String()))\n	case template.HTML:\n		bb.Write(unsafeGetBytes(template.HTMLEscaper(string(t))))\n"}}, Expect: "R2"})
+	addMutant(Mutant{Name: "slice-arm-joins-and-writes", Prop: "C01", File: "compiler.go",
+		Old: "	case []string:\n		for _, ii := range t {\n			c.write(bb, ii)\n		}", New: "	case []string:\n		bb.Write(unsafeGetBytes(strings.Join(t, \"\")))", Expect: "R2"})
+	addMutant(Mutant{Name: "contentof-wraps-data-as-html", Prop: "C01", File: "helpers/content/of.go",
+		Old: "		return template.HTML(body), nil", New: "		return template.HTML(body + name), nil", Expect: "R4"})
+	addMutant(Mutant{Name: "write-from-compile-directly", Prop: "C01", File: "compiler.go",
+		Old: "		c.write(bb, res)\n	}\n\n	return bb.String(), nil", New: "		if s, ok := res.(string); ok {\n			bb.WriteString(s)\n			continue\n		}\n		c.write(bb, res)\n	}\n\n	return bb.String(), nil", Expect: "R1"})
+	addMutant(Mutant{Name: "revert-block-filter-on-value-type", Prop: "C02", File: "compiler.go",
+		Old: "		switch s.(type) {\n		case exitBlockStatment, ast.Printable:\n			return s, err\n		}", New: "		switch s.(type) {\n		case exitBlockStatment, ast.Printable, template.HTML:\n			return s, err\n		}", Expect: "R2"})
+	addMutant(Mutant{Name: "toplevel-expression-value-printed", Prop: "C02", File: "compiler.go",
+		Old: "				_, err = c.evalExpression(node.Expression)", New: "				res, err = c.evalExpression(node.Expression)", Expect: "R2"})
+	addMutant(Mutant{Name: "double-write", Prop: "C02", File: "compiler.go",
+		Old: "		c.write(bb, res)\n	}\n\n	return bb.String(), nil", New: "		c.write(bb, res)\n		if _, ok := stmt.(*ast.ReturnStatement); ok && len(c.program.Statements) == 1 {\n			c.write(bb, res)\n		}\n	}\n\n	return bb.String(), nil", Expect: "R1"})
+	addMutant(Mutant{Name: "literal-text-trimmed", Prop: "C02", File: "compiler.go",
+		Old: "				res = template.HTML(h.Value)", New: "				res = template.HTML(strings.TrimRight(h.Value, \" \"))", Expect: "R3"})
+	// ---- C17 ----
+	addMutant(Mutant{Name: "block-rendered-twice", Prop: "C17", File: "helper_context.go",
+		Old: "	bb := &strings.Builder{}\n	h.compiler.write(bb, i)\n", New: "	bb := &strings.Builder{}\n	h.compiler.write(bb, i)\n	if bb.Len() == 0 {\n		h.compiler.write(bb, i)\n	}\n", Expect: "R1"})
+	addMutant(Mutant{Name: "contentof-ignores-data", Prop: "C17", File: "helpers/content/of.go",
+		Old: "		hc := help.New()\n		for k, v := range data {\n			hc.Set(k, v)\n		}", New: "		hc := help.New()", Expect: "R3"})
+	addMutant(Mutant{Name: "contentfor-returns-body", Prop: "C17", File: "helpers/content/for.go",
+		Old: "func ContentFor(name string, help hctx.HelperContext) {", New: "func ContentFor(name string, help hctx.HelperContext) string {",
+		Edits: []Edit{{"helpers/content/for.go", "		return template.HTML(body), nil\n	})\n}", "		return template.HTML(body), nil\n	})\n	return \"\"\n}"}}, Expect: "R2"})
+	addMutant(Mutant{Name: "js-escape-after-layout", Prop: "C17", File: "partial_helper.go",
+		Old: "	if ct, ok := help.Value(\"contentType\").(string); ok {\n		ext := filepath.Ext(name)\n		if strings.Contains(ct, \"javascript\") && ext != \".js\" && ext != \"\" {\n			part = template.JSEscapeString(string(part))\n		}\n	}\n\n	if layout, ok := data[\"layout\"].(string); ok {\n		return PartialHelper(\n			layout,\n			map[string]interface{}{\"yield\": template.HTML(part)},\n			help)\n	}\n",
+		New: "	if layout, ok := data[\"layout\"].(string); ok {\n		return PartialHelper(\n			layout,\n			map[string]interface{}{\"yield\": template.HTML(part)},\n			help)\n	}\n\n	if ct, ok := help.Value(\"contentType\").(string); ok {\n		ext := filepath.Ext(name)\n		if strings.Contains(ct, \"javascript\") && ext != \".js\" && ext != \"\" {\n			part = template.JSEscapeString(string(part))\n		}\n	}\n", Expect: "R4"})
+	// ---- C20 ----
+	addMutant(Mutant{Name: "revert-truncate-unchecked-opts", Prop: "C20", File: "helpers/text/truncate.go",
+		Old: "	size := 50\n	if v, ok := opts[\"size\"].(int); ok {\n		size = v\n	}", New: "	size := 50\n	if opts[\"size\"] != nil {\n		size = opts[\"size\"].(int)\n	}", Expect: "R6"})
+	addMutant(Mutant{Name: "truncate-slices-bytes", Prop: "C20", File: "helpers/text/truncate.go",
+		Old: "	return string(runesS[:size-len(runesTrail)]) + trail", New: "	return s[:size-len(runesTrail)] + trail", Expect: "R4"})
+	addMutant(Mutant{Name: "truncate-drops-trail-guard", Prop: "C20", File: "helpers/text/truncate.go",
+		Old: "	if len(runesTrail) >= size {\n		return trail\n	}\n", New: "", Expect: "R5"})
+	addMutant(Mutant{Name: "htmlescape-appends-after-escaping", Prop: "C20", File: "helpers/escapes/html.go",
+		Old: "	return template.HTMLEscapeString(s), nil", New: "	return template.HTMLEscapeString(s) + \"\", nil", Expect: "R1"})
+	addMutant(Mutant{Name: "json-without-html-escaping", Prop: "C20", File: "helpers/encoders/json.go",
+		Old:   "	b, err := json.Marshal(v)\n	if err != nil {\n		return \"\", err\n	}\n	return template.HTML(b), nil",
+		New:   "	var sb strings.Builder\n	enc := json.NewEncoder(&sb)\n	enc.SetEscapeHTML(false)\n	if err := enc.Encode(v); err != nil {\n		return \"\", err\n	}\n	return template.HTML(strings.TrimSpace(sb.String())), nil",
+		Edits: []Edit{{"helpers/encoders/json.go", "	\"html/template\"\n", "	\"html/template\"\n	\"strings\"\n"}}, Expect: "R3"})
 }
